@@ -1041,6 +1041,10 @@ func (ctx Ctx) binExpr(e *ast.BinaryExpr) coq.Expr {
 			if _, ok := ctx.typeOf(e.X).(*types.Pointer); ok {
 				expr.Y = coq.Null
 			}
+			// a map is a reference; its zero value (the nil map) is null
+			if _, ok := ctx.typeOf(e.X).Underlying().(*types.Map); ok {
+				expr.Y = coq.Null
+			}
 		}
 		return expr
 	}
